@@ -62,6 +62,7 @@ EXTENDS Naturals, Sequences, FiniteSets
 CONSTANTS N,          \* worker ids are 0..N-1 (Pool_Start(n) may start fewer: trace spec)
           MaxTasks,
           G,          \* at most G calls of start (generations 1..G)
+          Stops,      \* at most Stops calls of stop per generation (stop; stop is a legal script)
           Dev
 
 DevNames == {"DropJoinsRecovery", "RestartSharesHandles", "RunUnderLock", "ContinueOnDisconnect",
@@ -79,6 +80,7 @@ VARIABLES
   nsub,        \* tasks 1..nsub have been passed to execute
   cur,         \* number of start() calls so far = current generation (0: never started)
   recAttached, \* pool.recovery_thread is Some(handle)
+  nsd,         \* nsd[g]: number of stop() calls (= Shutdown messages sent) in generation g
   q,           \* q[g]: task channel of generation g, FIFO of task ids and SHUTDOWN
   txAlive,     \* txAlive[g]: the pool's Sender<Message> of generation g exists
   rxLock,      \* rxLock[g]: worker holding the Mutex<Receiver> of generation g, or NOBODY
@@ -94,7 +96,7 @@ VARIABLES
   ran,         \* ran[t]  = number of times the body of t was entered
   done         \* done[t] = number of times the body of t returned
 
-vars == <<cpc, nsub, cur, recAttached, q, txAlive, rxLock, poisoned, wpc, wtask, inc, recq, rpc, rw,
+vars == <<cpc, nsub, cur, recAttached, nsd, q, txAlive, rxLock, poisoned, wpc, wtask, inc, recq, rpc, rw,
           handles, pan, ran, done>>
 
 \* the handle table (Arc<Mutex<Vec<Thread>>>) used by generation g
@@ -103,7 +105,7 @@ Tbl(g) == IF "RestartSharesHandles" \in Dev THEN 1 ELSE g
 TableFree(tb) == \A g \in Gens : Tbl(g) = tb => rpc[g] \notin {"join", "respawn"}
 
 InitWith(p) ==
-  /\ cpc = "new" /\ nsub = 0 /\ cur = 0 /\ recAttached = FALSE
+  /\ cpc = "new" /\ nsub = 0 /\ cur = 0 /\ recAttached = FALSE /\ nsd = [g \in Gens |-> 0]
   /\ q = [g \in Gens |-> <<>>] /\ txAlive = [g \in Gens |-> FALSE]
   /\ rxLock = [g \in Gens |-> NOBODY] /\ poisoned = [g \in Gens |-> FALSE]
   /\ wpc = [g \in Gens |-> [w \in Workers |-> "absent"]]
@@ -131,19 +133,21 @@ Pool_Start(n) ==
      /\ wpc' = [wpc EXCEPT ![g] = [w \in Workers |-> IF w < n THEN "idle" ELSE "absent"]]
      /\ handles' = [handles EXCEPT ![Tbl(g)] = [w \in Workers |-> IF w < n THEN g ELSE 0]]
      /\ rpc' = [rpc EXCEPT ![g] = "recv"]
-  /\ UNCHANGED <<nsub, q, rxLock, poisoned, wtask, inc, recq, rw, pan, ran, done>>
+  /\ UNCHANGED <<nsub, nsd, q, rxLock, poisoned, wtask, inc, recq, rw, pan, ran, done>>
 
 \* ThreadPool::execute: tx.send(Function(task)) - never fails, never blocks.
 Pool_Execute(t) ==
   /\ cpc = "started" /\ t = nsub + 1 /\ t \in Tasks
   /\ nsub' = t /\ q' = [q EXCEPT ![cur] = Append(@, t)]
-  /\ UNCHANGED <<cpc, cur, recAttached, txAlive, rxLock, poisoned, wpc, wtask, inc, recq, rpc, rw,
+  /\ UNCHANGED <<cpc, cur, recAttached, nsd, txAlive, rxLock, poisoned, wpc, wtask, inc, recq, rpc, rw,
                  handles, pan, ran, done>>
 
-\* ThreadPool::stop: recovery_thread = None (detach), send ONE Shutdown.
+\* ThreadPool::stop: recovery_thread = None (detach), send ONE Shutdown.  Calling it again on a stopped pool
+\* sends another Shutdown on the same channel (its receiver lives in the recovery thread, so send succeeds).
 Pool_Stop ==
-  /\ cpc = "started"
+  /\ cpc \in {"started", "stopped"} /\ cur >= 1 /\ nsd[cur] < Stops
   /\ recAttached' = FALSE
+  /\ nsd' = [nsd EXCEPT ![cur] = @ + 1]
   /\ q' = [q EXCEPT ![cur] = IF "ShutdownPerStop2" \in Dev THEN @ \o <<SHUTDOWN, SHUTDOWN>>
                                                              ELSE Append(@, SHUTDOWN)]
   /\ cpc' = IF "StopJoinsWorkers" \in Dev THEN "stopjoin" ELSE "stopped"
@@ -155,14 +159,14 @@ Pool_StopJoined ==
   /\ cpc = "stopjoin"
   /\ \A w \in Workers : wpc[cur][w] \in {"absent", "exited", "dead"}
   /\ cpc' = "stopped"
-  /\ UNCHANGED <<nsub, cur, recAttached, q, txAlive, rxLock, poisoned, wpc, wtask, inc, recq, rpc, rw,
+  /\ UNCHANGED <<nsub, cur, recAttached, nsd, q, txAlive, rxLock, poisoned, wpc, wtask, inc, recq, rpc, rw,
                  handles, pan, ran, done>>
 
 \* <ThreadPool as Drop>::drop is entered (also for a pool that was never started).
 Pool_DropBegin ==
   /\ cpc \in {"new", "started", "stopped"}
   /\ cpc' = "dropping"
-  /\ UNCHANGED <<nsub, cur, recAttached, q, txAlive, rxLock, poisoned, wpc, wtask, inc, recq, rpc, rw,
+  /\ UNCHANGED <<nsub, cur, recAttached, nsd, q, txAlive, rxLock, poisoned, wpc, wtask, inc, recq, rpc, rw,
                  handles, pan, ran, done>>
 
 \* The recovery thread never ends, so joining it never returns.
@@ -179,13 +183,13 @@ Pool_DropHandles ==
           /\ handles' = [handles EXCEPT ![Tbl(cur)] = [w \in Workers |-> 0]]
   /\ recAttached' = FALSE
   /\ cpc' = "dropped"
-  /\ UNCHANGED <<nsub, cur, q, txAlive, rxLock, poisoned, wpc, wtask, inc, recq, rpc, rw, pan, ran, done>>
+  /\ UNCHANGED <<nsub, cur, nsd, q, txAlive, rxLock, poisoned, wpc, wtask, inc, recq, rpc, rw, pan, ran, done>>
 
 \* the fields are dropped: the pool's Sender - the only one of the current generation - goes away.
 Pool_DropEnd ==
   /\ cpc = "dropped"
   /\ txAlive' = [h \in Gens |-> IF h = cur THEN FALSE ELSE txAlive[h]] /\ cpc' = "done"
-  /\ UNCHANGED <<nsub, cur, recAttached, q, rxLock, poisoned, wpc, wtask, inc, recq, rpc, rw, handles,
+  /\ UNCHANGED <<nsub, cur, recAttached, nsd, q, rxLock, poisoned, wpc, wtask, inc, recq, rpc, rw, handles,
                  pan, ran, done>>
 
 Caller == \/ Pool_Start(N) \/ (\E t \in Tasks : Pool_Execute(t)) \/ Pool_Stop \/ Pool_StopJoined
@@ -202,7 +206,7 @@ Worker_Lock(g, w) ==
   /\ IF poisoned[g]
        THEN /\ wpc' = SetW(wpc, g, w, "exited") /\ UNCHANGED rxLock
        ELSE /\ wpc' = SetW(wpc, g, w, "recv") /\ rxLock' = [rxLock EXCEPT ![g] = w]
-  /\ UNCHANGED <<cpc, nsub, cur, recAttached, q, txAlive, poisoned, wtask, inc, recq, rpc, rw, handles,
+  /\ UNCHANGED <<cpc, nsub, cur, recAttached, nsd, q, txAlive, poisoned, wtask, inc, recq, rpc, rw, handles,
                  pan, ran, done>>
 
 \* guard.recv() returns a message; the guard is dropped.
@@ -215,14 +219,14 @@ Worker_RecvMsg(g, w) ==
        ELSE /\ wpc' = SetW(wpc, g, w, "got")
             /\ wtask' = SetW(wtask, g, w, Head(q[g]))
             /\ rxLock' = [rxLock EXCEPT ![g] = IF "RunUnderLock" \in Dev THEN w ELSE NOBODY]
-  /\ UNCHANGED <<cpc, nsub, cur, recAttached, txAlive, poisoned, inc, recq, rpc, rw, handles, pan, ran, done>>
+  /\ UNCHANGED <<cpc, nsub, cur, recAttached, nsd, txAlive, poisoned, inc, recq, rpc, rw, handles, pan, ran, done>>
 
 \* guard.recv() fails: every Sender is gone and the queue is empty.
 Worker_RecvDisc(g, w) ==
   /\ wpc[g][w] = "recv" /\ q[g] = <<>> /\ ~txAlive[g]
   /\ wpc' = SetW(wpc, g, w, IF "ContinueOnDisconnect" \in Dev THEN "idle" ELSE "exited")
   /\ rxLock' = [rxLock EXCEPT ![g] = NOBODY]
-  /\ UNCHANGED <<cpc, nsub, cur, recAttached, q, txAlive, poisoned, wtask, inc, recq, rpc, rw, handles,
+  /\ UNCHANGED <<cpc, nsub, cur, recAttached, nsd, q, txAlive, poisoned, wtask, inc, recq, rpc, rw, handles,
                  pan, ran, done>>
 
 Worker_Recv(g, w) == Worker_RecvMsg(g, w) \/ Worker_RecvDisc(g, w)
@@ -232,7 +236,7 @@ Worker_Run(g, w) ==
   /\ wpc[g][w] = "got"
   /\ wpc' = SetW(wpc, g, w, "run")
   /\ ran' = [ran EXCEPT ![wtask[g][w]] = @ + 1]
-  /\ UNCHANGED <<cpc, nsub, cur, recAttached, q, txAlive, rxLock, poisoned, wtask, inc, recq, rpc, rw,
+  /\ UNCHANGED <<cpc, nsub, cur, recAttached, nsd, q, txAlive, rxLock, poisoned, wtask, inc, recq, rpc, rw,
                  handles, pan, done>>
 
 \* (f)() returns; back to the top of the loop
@@ -242,7 +246,7 @@ Worker_Finish(g, w) ==
   /\ done' = [done EXCEPT ![wtask[g][w]] = @ + 1]
   /\ wtask' = SetW(wtask, g, w, 0)
   /\ rxLock' = [rxLock EXCEPT ![g] = IF @ = w THEN NOBODY ELSE @]      \* RunUnderLock only
-  /\ UNCHANGED <<cpc, nsub, cur, recAttached, q, txAlive, poisoned, inc, recq, rpc, rw, handles, pan, ran>>
+  /\ UNCHANGED <<cpc, nsub, cur, recAttached, nsd, q, txAlive, poisoned, inc, recq, rpc, rw, handles, pan, ran>>
 
 \* (f)() panics; PanicMarker::drop sends the worker id to the recovery thread of its generation
 Worker_Panic(g, w) ==
@@ -253,13 +257,13 @@ Worker_Panic(g, w) ==
   /\ rxLock' = [rxLock EXCEPT ![g] = IF @ = w THEN NOBODY ELSE @]      \* RunUnderLock only: guard dropped
   /\ poisoned' = [poisoned EXCEPT ![g] = (@ \/ rxLock[g] = w)]         \*   while panicking => poisoned
   /\ q' = IF "RequeueOnPanic" \in Dev THEN [q EXCEPT ![g] = Append(@, wtask[g][w])] ELSE q
-  /\ UNCHANGED <<cpc, nsub, cur, recAttached, txAlive, inc, rpc, rw, handles, pan, ran, done>>
+  /\ UNCHANGED <<cpc, nsub, cur, recAttached, nsd, txAlive, inc, rpc, rw, handles, pan, ran, done>>
 
 \* the OS thread of a panicked worker ends (the only step without a hook point)
 Worker_Die(g, w) ==
   /\ wpc[g][w] = "unwinding"
   /\ wpc' = SetW(wpc, g, w, "dead")
-  /\ UNCHANGED <<cpc, nsub, cur, recAttached, q, txAlive, rxLock, poisoned, wtask, inc, recq, rpc, rw,
+  /\ UNCHANGED <<cpc, nsub, cur, recAttached, nsd, q, txAlive, rxLock, poisoned, wtask, inc, recq, rpc, rw,
                  handles, pan, ran, done>>
 
 Worker(g, w) == \/ Worker_Lock(g, w) \/ Worker_Recv(g, w) \/ Worker_Run(g, w) \/ Worker_Finish(g, w)
@@ -273,7 +277,7 @@ Rec_Wake(g) ==
   /\ rpc[g] = "recv" /\ recq[g] # <<>>
   /\ rw' = [rw EXCEPT ![g] = Head(recq[g])] /\ recq' = [recq EXCEPT ![g] = Tail(@)]
   /\ rpc' = [rpc EXCEPT ![g] = "lock"]
-  /\ UNCHANGED <<cpc, nsub, cur, recAttached, q, txAlive, rxLock, poisoned, wpc, wtask, inc, handles,
+  /\ UNCHANGED <<cpc, nsub, cur, recAttached, nsd, q, txAlive, rxLock, poisoned, wpc, wtask, inc, handles,
                  pan, ran, done>>
 
 \* threads.lock() returns (the caller's critical sections are single steps, so with one table per
@@ -281,7 +285,7 @@ Rec_Wake(g) ==
 Rec_Recv(g) ==
   /\ rpc[g] = "lock" /\ TableFree(Tbl(g))
   /\ rpc' = [rpc EXCEPT ![g] = "join"]
-  /\ UNCHANGED <<cpc, nsub, cur, recAttached, q, txAlive, rxLock, poisoned, wpc, wtask, inc, recq, rw,
+  /\ UNCHANGED <<cpc, nsub, cur, recAttached, nsd, q, txAlive, rxLock, poisoned, wpc, wtask, inc, recq, rw,
                  handles, pan, ran, done>>
 
 \* threads[id].os_thread.take() and, if it was there, join() - returns when the thread the handle refers
@@ -294,7 +298,7 @@ Rec_Join(g) ==
             /\ handles' = [handles EXCEPT ![tb] = [@ EXCEPT ![rw[g]] = 0]]
        ELSE UNCHANGED handles
   /\ rpc' = [rpc EXCEPT ![g] = "respawn"]
-  /\ UNCHANGED <<cpc, nsub, cur, recAttached, q, txAlive, rxLock, poisoned, wpc, wtask, inc, recq, rw,
+  /\ UNCHANGED <<cpc, nsub, cur, recAttached, nsd, q, txAlive, rxLock, poisoned, wpc, wtask, inc, recq, rw,
                  pan, ran, done>>
 
 \* Thread::new(id, ..) on the task channel of generation g, stored in threads[id]; the guard is dropped at
@@ -306,7 +310,7 @@ Rec_Respawn(g) ==
   /\ inc' = SetW(inc, g, rw[g], inc[g][rw[g]] + 1)
   /\ handles' = [handles EXCEPT ![Tbl(g)] = [@ EXCEPT ![rw[g]] = g]]
   /\ rpc' = [rpc EXCEPT ![g] = "recv"] /\ rw' = [rw EXCEPT ![g] = NOBODY]
-  /\ UNCHANGED <<cpc, nsub, cur, recAttached, q, txAlive, rxLock, poisoned, wtask, recq, pan, ran, done>>
+  /\ UNCHANGED <<cpc, nsub, cur, recAttached, nsd, q, txAlive, rxLock, poisoned, wtask, recq, pan, ran, done>>
 
 Recovery(g) == Rec_Wake(g) \/ Rec_Recv(g) \/ Rec_Join(g) \/ Rec_Respawn(g)
 
@@ -324,7 +328,7 @@ Spec == /\ Init /\ [][Next]_vars
 WStates == {"absent", "idle", "recv", "got", "run", "unwinding", "dead", "exited"}
 TypeOK ==
   /\ cpc \in {"new", "started", "stopjoin", "stopped", "dropping", "dropped", "done"}
-  /\ nsub \in 0 .. MaxTasks /\ cur \in 0 .. G /\ recAttached \in BOOLEAN
+  /\ nsub \in 0 .. MaxTasks /\ cur \in 0 .. G /\ recAttached \in BOOLEAN /\ nsd \in [Gens -> 0 .. Stops]
   /\ txAlive \in [Gens -> BOOLEAN] /\ poisoned \in [Gens -> BOOLEAN]
   /\ \A g \in Gens : q[g] \in Seq(Tasks \cup {SHUTDOWN}) /\ recq[g] \in Seq(Workers)
   /\ rxLock \in [Gens -> Workers \cup {NOBODY}]
@@ -362,7 +366,8 @@ NoLossNoDup ==
   /\ \A p \in GW : (wtask[p[1]][p[2]] # 0) <=> (wpc[p[1]][p[2]] \in {"got", "run"})
   /\ \A p1, p2 \in GW : (p1 # p2 /\ wtask[p1[1]][p1[2]] # 0) => wtask[p1[1]][p1[2]] # wtask[p2[1]][p2[2]]
   /\ \A g \in Gens : \A i \in 1 .. Len(q[g]) - 1 :
-        q[g][i] # SHUTDOWN /\ (q[g][i + 1] # SHUTDOWN => q[g][i] < q[g][i + 1])
+        IF q[g][i] = SHUTDOWN THEN q[g][i + 1] = SHUTDOWN             \* no task behind a Shutdown
+        ELSE q[g][i + 1] # SHUTDOWN => q[g][i] < q[g][i + 1]           \* tasks in submission order
   /\ \A g1, g2 \in Gens : g1 # g2 =>
         {q[g1][i] : i \in 1 .. Len(q[g1])} \cap {q[g2][i] : i \in 1 .. Len(q[g2])} \subseteq {SHUTDOWN}
   /\ \A t \in 1 .. nsub :
@@ -373,13 +378,14 @@ NoLossNoDup ==
 \* "a task that panics affects nothing but itself": while the pool is started no worker of the current
 \* generation leaves, and a worker that died of a panic is on its way to being replaced
 NoPrematureExit ==
-  /\ (cpc = "started" /\ cur >= 1) => Gone(cur) = {}
+  /\ (cpc = "started" /\ cur >= 1 /\ nsd[cur] = 0) => Gone(cur) = {}
   /\ \A g \in Gens : \A w \in Started(g) : wpc[g][w] \in {"unwinding", "dead"} =>
         \/ rw[g] = w \/ \E i \in 1 .. Len(recq[g]) : recq[g][i] = w   \* its recovery is under way
 
-\* implementation-level (not demanded by the property): stop sends ONE Shutdown, so until the Sender
-\* is gone exactly the worker that consumed it has left; the others leave when the Sender is dropped
-SingleShutdown == \A g \in Gens : txAlive[g] => Cardinality(Gone(g)) <= 1
+\* implementation-level (not demanded by the property): each stop sends ONE Shutdown, so until the Sender
+\* is gone exactly as many workers have left as Shutdowns were sent at most; the others leave when the
+\* Sender is dropped
+SingleShutdown == \A g \in Gens : txAlive[g] => Cardinality(Gone(g)) <= nsd[g]
 
 \* a handle in a table refers to a worker of the generation that owns the table
 HandlesOwn == \A g \in Gens, w \in Workers : handles[g][w] \in {0, g}
@@ -387,7 +393,8 @@ HandlesOwn == \A g \in Gens, w \in Workers : handles[g][w] \in {0, g}
 Quiescent ==
   /\ cpc = "done"
   /\ \A g \in Gens : /\ Started(g) \subseteq Gone(g)
-                     /\ q[g] = <<>> /\ recq[g] = <<>> /\ rpc[g] \in {"absent", "recv"}
+                     /\ \A i \in 1 .. Len(q[g]) : q[g][i] = SHUTDOWN    \* (a surplus Shutdown may stay behind)
+                     /\ recq[g] = <<>> /\ rpc[g] \in {"absent", "recv"}
 
 SubmittedOK(t) == ran[t] = 1 /\ (t \in pan \/ done[t] = 1)
 
